@@ -147,7 +147,7 @@ def check_case(case, ctx):
                 if rounds == 1:
                     sim.c_prop()
                     ctx.count('abuf_second_prop')
-                    if not np.array_equal(np.asarray(sim.c), c):
+                    if not W.same_waveforms(sim, sim.c, sim, c):
                         ctx.violation('accumulation', 'a second propagation of the same inputs changed the waveforms', case)
                         return
     ctx.case(case, nontrivial_multi and nontrivial_ovl, key=WC.key_of(case) + [case['use_abuf']])
